@@ -40,7 +40,8 @@ func c08HammerPhase(c *Ctx, T time.Duration, phase string) {
 	if phase == "broadcast" {
 		K = K / 2
 	}
-	total := G * K
+	calls0 := G * K
+	total := 2 * calls0 // ids: one per call, and one more for the second attempt of a call that failed
 	fm := farm.New()
 	fm.KeepLog = false
 	defer fm.Close()
@@ -106,9 +107,10 @@ func c08HammerPhase(c *Ctx, T time.Duration, phase string) {
 		serial uint32
 		path   string
 	}
-	ctrls := []ctl{{serialBase + 1, "udp"}, {serialBase + 2, "udp"}, {serialBase + 3, "tcp"}, {serialBase + 4, "broadcast"}}
+	// (the fifth is configured - as a TCP controller - but without a usable address: it is reached by broadcast like the fourth)
+	ctrls := []ctl{{serialBase + 1, "udp"}, {serialBase + 2, "udp"}, {serialBase + 3, "tcp"}, {serialBase + 4, "broadcast"}, {serialBase + 5, "broadcast"}}
 	cfg := ClientCfg{Bind: "127.0.0.1:0", Broadcast: bc.Addr, Timeout: T, Devices: []DevCfg{
-		{ID: ctrls[0].serial, Addr: eps[0].Addr, Proto: "udp", NewDevice: true}, {ID: ctrls[1].serial, Addr: eps[1].Addr, Proto: "udp"}, {ID: ctrls[2].serial, Addr: tcp.Addr, Proto: "tcp", NewDevice: true}}}
+		{ID: ctrls[0].serial, Addr: eps[0].Addr, Proto: "udp", NewDevice: true}, {ID: ctrls[1].serial, Addr: eps[1].Addr, Proto: "udp"}, {ID: ctrls[2].serial, Addr: tcp.Addr, Proto: "tcp", NewDevice: true}, {ID: ctrls[4].serial, Addr: "0.0.0.0:60000", Proto: "tcp"}}}
 	clients := []uhppote.IUHPPOTE{mkClient(cfg), mkClient(cfg)}
 
 	// host-stall monitor
@@ -139,6 +141,8 @@ func c08HammerPhase(c *Ctx, T time.Duration, phase string) {
 		start, end int64
 		out        rm.Outcome
 		panicked   bool
+		retried    bool // the call failed and was made again at once (with an id of its own): that second call is in the list too
+		retryOK    bool
 	}
 	hops := []echoOp{{"GetCardByIndex", "Index"}, {"GetEvent", "Index"}, {"GetCardByID", "CardNumber"}}
 	calls := make([][]hcall, G)
@@ -168,6 +172,9 @@ func c08HammerPhase(c *Ctx, T time.Duration, phase string) {
 				default:
 					ci = 3
 				}
+				if ci == 3 && rr.Pick(2) == 0 {
+					ci = 4
+				}
 				oi := rr.Pick(len(hops))
 				u := clients[rr.Pick(2)]
 				n := inflight.Add(1)
@@ -180,6 +187,16 @@ func c08HammerPhase(c *Ctx, T time.Duration, phase string) {
 				h := hcall{id: i, ctrl: ci, op: oi, start: farm.Mono()}
 				h.out, h.panicked = adapter.SafeCall(u, hops[oi].name, ctrls[ci].serial, echoArgs(hops[oi], base+uint32(i)), adapter.Aux{})
 				h.end = farm.Mono()
+				if h.out.Err != "" && !h.panicked {
+					// a failed call is made again at once: a defect of the library fails again; a reply that was lost to the machine
+					// (a starved goroutine finds its deadline expired although the reply sits in the socket) does not
+					i2 := int(next.Add(1))
+					h2 := hcall{id: i2, ctrl: ci, op: oi, start: farm.Mono()}
+					h2.out, h2.panicked = adapter.SafeCall(u, hops[oi].name, ctrls[ci].serial, echoArgs(hops[oi], base+uint32(i2)), adapter.Aux{})
+					h2.end = farm.Mono()
+					h.retried, h.retryOK = true, h2.out.Err == "" && !h2.panicked
+					calls[g] = append(calls[g], h2)
+				}
 				inflight.Add(-1)
 				calls[g] = append(calls[g], h)
 			}
@@ -196,7 +213,7 @@ func c08HammerPhase(c *Ctx, T time.Duration, phase string) {
 	stall := time.Duration(maxStall.Load())
 	c.Res.Max("max:hammer:in-flight-calls", maxInflight.Load())
 	c.Res.Max("max:hammer:host-stall-ms", stall.Milliseconds())
-	c.Res.Count("hammer:calls", int64(total))
+	c.Res.Count("hammer:calls", int64(calls0))
 	c.Res.Note("hammer:"+phase, fmt.Sprintf("%d goroutines x %d calls on 2 clients (bind port 0) in %.1fs, max in flight %d, worst host stall %v", G, K, wall.Seconds(), maxInflight.Load(), stall))
 	overloaded := stall > T/3
 
@@ -261,6 +278,15 @@ func c08HammerPhase(c *Ctx, T time.Duration, phase string) {
 			if msg := exp.Judge(h.out); msg != "" {
 				c.Res.Violate("C08:crossed-reply:"+path, fmt.Sprintf("%s (%s path, bind port 0, %d goroutines on 2 clients) did not return the reply to its own request: %s", op.Name, path, G, msg), w, int64(h.id))
 			}
+			continue
+		}
+		if h.retried && h.retryOK {
+			c.Res.Count("hammer:calls-that-failed-once-and-succeeded-when-made-again(transient: not judged)", 1)
+			continue
+		}
+		if r == 0 && !noEphemeralPort(h.out.Err) && !overloaded && time.Duration(h.end-h.start) < T/2 && !strings.Contains(h.out.Err, "i/o timeout") {
+			// the call gave up long before its timeout and its controller never saw a request: it was never asked
+			c.Res.Violate("C08:request-not-sent:"+path, fmt.Sprintf("%s (%s path, bind port 0, %d goroutines on 2 clients) failed after %.1f ms with %q without its controller ever being asked (T=%v)", op.Name, path, G, float64(h.end-h.start)/1e6, h.out.Err, T), w, int64(h.id))
 			continue
 		}
 		if r == 0 || s == 0 || noEphemeralPort(h.out.Err) {
